@@ -31,6 +31,12 @@ CHECKS = {
         "text": "Generated trees (all rewrite templates uniformly, random, small, concrete) with eliminatable / pinned / relocatable annotation instances on leaves and inner nodes; after each construction step pinned instances reachable from the arguments must be reachable from the result and relocatable ones of direct arguments must be on the result; claripy.simplify keeps top-level and direct-argument relocatable annotations; solver simplify/min/max/eval keep SimplificationAvoidance-annotated constraints as the same objects; the meaning oracle of C01 runs too.",
         "note": "For SolverComposite, And-rooted annotated constraints are out of scope (the composite stores a conjunction as its conjuncts by design).",
     },
+    "C08": {
+        "level": "exploration",
+        "technique": "property-based testing: generated expressions and utility arguments checked against evaluator-level specifications (exhaustive assignments at small widths, Z3 equivalence otherwise)",
+        "text": "Generated-input search over replace / replace_dict / canonicalize / identical / excavate_ite / burrow_ite / ite_cases / ite_dict / reverse_ite_cases / chop / get_bytes: each result is compared with an executable specification of the utility (IR-level substitution, first-true-case, table lookup, byte slicing, injective sort-preserving renaming, existence of a variable bijection for identical()==True) on all assignments at <=10 variable bits, sampled assignments plus a Z3 validity query above.",
+        "note": "identical(): only True answers are checked; reverse_ite_cases: exhaustiveness and per-case correctness, not exclusivity (not promised).",
+    },
 }
 
 NOT_APPLICABLE = {}
